@@ -155,3 +155,32 @@ class PlainBuffered(io.BufferedIOBase):
         data = self.read(len(b))
         b[: len(data)] = data
         return len(data)
+
+
+class ResetRaw(io.RawIOBase):
+    """Non-seekable connection that delivers `data` (in segments of `chunk` bytes) and then
+    fails with ConnectionResetError instead of reporting end-of-file."""
+
+    def __init__(self, data: bytes, chunk: int | None = None) -> None:
+        super().__init__()
+        self.data = data
+        self.pos = 0
+        self.chunk = chunk
+
+    def readable(self) -> bool:
+        return True
+
+    def seekable(self) -> bool:
+        return False
+
+    def readinto(self, b) -> int:
+        want = len(b)
+        if want == 0:
+            return 0
+        if self.pos >= len(self.data):
+            raise ConnectionResetError("connection reset by peer")
+        n = want if self.chunk is None else min(want, self.chunk)
+        part = self.data[self.pos : self.pos + n]
+        b[: len(part)] = part
+        self.pos += len(part)
+        return len(part)
